@@ -7,6 +7,8 @@ import EaselModel.Shuffle.LemmasDP
 import EaselModel.Shuffle.LemmasBEST
 import EaselModel.Shuffle.LemmasQrna
 import EaselModel.Shuffle.LemmasVShuffle
+import EaselModel.Shuffle.LemmasRetry
+import EaselModel.Shuffle.LemmasSample
 import EaselModel.Shuffle.LawfulRat
 /-! # C18 — property theorems (statements + glue only; lemmas live in Shuffle/*.lean)
 
@@ -130,6 +132,45 @@ theorem qrna_class_perm (isGap : UInt8 → Bool) (x y : Bytes) (base L : Nat) (h
     ((((qrna isGap x y base L r).1.1).zip ((qrna isGap x y base L r).1.2)).toList.filter (fun c => isGap c.1 == gx && isGap c.2 == gy)).Perm
       ((x.zip y).toList.filter (fun c => isGap c.1 == gx && isGap c.2 == gy)) :=
   ((qrna_spec isGap x y base L hfit hy r).zip.toList).filter _
+
+
+/-! ## the retry loops return the first accepted draw -/
+/-- `esl_rnd_Roll(r, n)` (as used by every shuffler): the value is the image `x / (UINT32_MAX / n)` of the first raw word
+    `x` of the stream that the rejection test accepts, every earlier word was rejected, and the generator has advanced by
+    exactly the words examined. (Second disjunct: none of the first `rollFuel = 10^6` words is accepted — the C loop
+    would keep drawing; the model then answers `(0, r)`.) Termination with probability 1 is not a theorem. -/
+theorem roll_returns_first_accepted (r : Rng) (n : Nat) :
+    (∃ k, k < rollFuel ∧ rollWord n (rngWord r k).toNat = some (roll r n).1 ∧ (roll r n).2 = rngAfter r (k+1) ∧
+        ∀ j, j < k → rollWord n (rngWord r j).toNat = none) ∨
+    ((∀ j, j < rollFuel → rollWord n (rngWord r j).toNat = none) ∧ roll r n = (0, r)) :=
+  roll_first_accepted r n
+
+/-- the `while (!is_eulerian)` loop of the DP shuffle: the edge ordering it leaves is the one produced by the first pass
+    of last-edge selection that the code's connectivity test accepts (all earlier passes were rejected, their swaps and
+    rolls are kept, exactly as in the C loop); `none` iff none of the first `fuel` passes is accepted -/
+theorem dpFind_returns_first_accepted (K sf fuel : Nat) (E : Edges) (r : Rng) :
+    match dpFind K sf fuel E r with
+    | some s => ∃ k, k < fuel ∧ s = dpAttempt K sf (E, r) (k+1) ∧ dpAccepted K sf s.1 = true ∧
+                  ∀ j, j < k → dpAccepted K sf (dpAttempt K sf (E, r) (j+1)).1 = false
+    | none => ∀ j, j < fuel → dpAccepted K sf (dpAttempt K sf (E, r) (j+1)).1 = false :=
+  dpFind_first_accepted K sf fuel E r
+
+/-! ## 64-bit vector shuffles and random character strings -/
+/-- `esl_vec_{D,F,I,L}Shuffle64` (generator `ESL_RAND64`): same length, same multiset, for every generator state -/
+theorem vecShuffle64_perm {α : Type} (v : Array α) (r : Rng64) :
+    (vecShuffle64 v r).1.size = v.size ∧ (vecShuffle64 v r).1.Perm v := by
+  have h := fyLoop64_inv (fun (a : Array α) i j => a.swapIfInBounds i j) 0 v.size (RegionPerm 0 v.size v)
+    (fun a i j ha _ hi _ hj => ha.swap (Nat.le_refl _) i j (by omega) (by omega) (by omega) (by omega))
+    v.size (Nat.le_refl _) v r (RegionPerm.refl _ _ _)
+  exact ⟨h.size, h.perm_all⟩
+
+/-- `esl_rsq_Sample(rng, allowed_chars, L, &s)`: an invalid flag is `eslEINVAL`; otherwise exactly `L` characters, each a
+    7-bit code belonging to the requested `<ctype.h>` class (C locale) -/
+theorem rsqSample_spec (flag L : Nat) (r : Rng) :
+    match sampleClass flag with
+    | none => (rsqSample flag L r).1 = none
+    | some cls => ∃ out, (rsqSample flag L r).1 = some out ∧ out.size = L ∧ ∀ x ∈ out, x < 128 ∧ cls x = true :=
+  rsqSample_spec' flag L r
 
 /-! ## k-mer shuffles -/
 /-- `esl_rsq_CShuffleKmers(r, s, K, shuffled)`: with `W = L / K` words and `P = L % K` leftover residues, the output's words
@@ -277,11 +318,23 @@ theorem dpWalk_edges_once (E : Edges) (K c0 : Nat) (hlt : ∀ v y, y ∈ elist E
 section numeric
 variable {α : Type} [CNum α] [LawfulCNum α]
 
-/-- `esl_rsq_IID / fIID / xIID / xfIID`: `L` symbols, every one of non-zero probability -/
+/-- `esl_rsq_IID / fIID / xIID / xfIID`, and `esl_rsq_SampleDirty` with a caller-provided probability vector (`Kp` entries):
+    `L` symbols, every one of non-zero probability -/
 theorem iid_support (p : List α) (L : Nat) (r : Rng) (out : Array Nat) (h : (iidLoop p L r #[]).1 = some out) :
     out.size = L ∧ ∀ k ∈ out, ∃ q, p[k]? = some q ∧ q ≠ CNum.zero := by
   have := iidLoop_support p L r #[] out h (by simp)
   simpa using this
+
+
+/-- `esl_rsq_SampleDirty`: whatever vector `p` is used (provided by the caller or sampled), if it is zero at the gap code
+    `K`, the nonresidue code `Kp-2` and the missing-data code `Kp-1`, none of these three symbols is ever emitted -/
+theorem sampleDirty_never_gap (p : List α) (K Kp L : Nat) (r : Rng) (out : Array Nat)
+    (h0 : p[K]? = some CNum.zero) (h1 : p[Kp - 2]? = some CNum.zero) (h2 : p[Kp - 1]? = some CNum.zero)
+    (h : (iidLoop p L r #[]).1 = some out) : out.size = L ∧ ∀ k ∈ out, k ≠ K ∧ k ≠ Kp - 2 ∧ k ≠ Kp - 1 := by
+  obtain ⟨hs, hk⟩ := iid_support p L r out h
+  refine ⟨hs, fun k hkm => ?_⟩
+  obtain ⟨q, hq1, hq2⟩ := hk k hkm
+  refine ⟨?_, ?_, ?_⟩ <;> (intro e; subst e; simp_all)
 
 /-- `esl_rsq_xIID(r, NULL, K, L, dsq)`: uniform residues `< K` -/
 theorem iid_uniform (K L : Nat) (hK : 0 < K) (r : Rng) :
@@ -342,6 +395,15 @@ theorem xMarkov1_spec (dsq : Bytes) (L K : Nat) (hL : L + 2 ≤ dsq.size) (r : R
       obtain ⟨h4, h5, h6⟩ := markov1_support K (digitalCodes dsq L) (by omega) r codes h1
       exact Or.inr ⟨codes, h3, by omega, h5, h6⟩
 end numeric
+
+
+/-- the vector that `esl_rsq_SampleDirty` samples when the caller provides none (binary64 model, executed by the driver)
+    has `Kp` entries and is exactly `0.0` at the gap, nonresidue and missing-data codes: the hypotheses of
+    `sampleDirty_never_gap` hold for it by construction -/
+theorem sampleDirty_sampled_vector_zeros (K Kp : Nat) (h : K + 3 ≤ Kp) (r : Rng) :
+    (dirtyP K Kp r).1.size = Kp ∧ (dirtyP K Kp r).1[K]? = some 0.0 ∧ (dirtyP K Kp r).1[Kp - 2]? = some 0.0 ∧
+      (dirtyP K Kp r).1[Kp - 1]? = some 0.0 :=
+  dirtyP_zeros K Kp h r
 
 /-- non-vacuity: the rationals are a lawful number type, so the theorems above apply to the code read in exact arithmetic -/
 example : LawfulCNum ℚ := inferInstance
